@@ -59,6 +59,25 @@ ATTRS = ["ax", "ay", "az"]
 PARAMS = ["pa", "pb"]
 KWNAMES = ["pa", "pb", "pc", "pd"]
 FUEL = 3000
+# module attribute values that are not numbers travel as reserved codes (the model's values are opaque numbers)
+VALCODE = {900001: "None", 900002: "''", 900003: "False"}
+PRINTED = {"None": 900001, "": 900002, "False": 900003}
+
+
+def val_literal(v):
+    return VALCODE.get(v, str(v))
+
+
+def val_code(v):
+    """code of a live Python value of a module attribute"""
+    if v is None:
+        return 900001
+    if v is False:
+        return 900003
+    if v == "" and isinstance(v, str):
+        return 900002
+    return int(v)
+
 
 
 # =========================================================================== case -> template sources
@@ -158,7 +177,7 @@ def level_source(case, i):
     if lv["sig"]:
         w.w('<%%page args="%s"/>%s' % (", ".join(p if d is None else "%s=%d" % (p, d) for p, d in lv["sig"]), hnl))
     for a, v in lv["attrs"]:
-        w.w("<%%! %s = %d %%>%s" % (a, v, hnl))
+        w.w("<%%! %s = %s %%>%s" % (a, val_literal(v), hnl))
     emit_nodes(lv["nodes"], w, lv["sig"], "body")
     return w.text()
 
@@ -248,7 +267,7 @@ def dec_kws(s):
 
 # =========================================================================== implementation side
 
-TOK = re.compile(r"\[t(\d+)\]|\{v(\d+)\}|\{g([^}]*)\}")
+TOK = re.compile(r"\[t(\d+)\]|\{v(\d+|None|False|)\}|\{g([^}]*)\}")
 
 
 def tokenize(out):
@@ -261,7 +280,7 @@ def tokenize(out):
         if m.group(1) is not None:
             toks.append(("t", int(m.group(1))))
         elif m.group(2) is not None:
-            toks.append(("v", int(m.group(2))))
+            toks.append(("v", PRINTED[m.group(2)] if m.group(2) in PRINTED else int(m.group(2))))
         else:
             b, e = m.group(3).split(";", 1)
             bound = tuple((kv.split("=")[0], int(kv.split("=")[1])) for kv in b.split(",") if kv)
@@ -591,7 +610,9 @@ class Gen:
                     lv["sig"][1][1] = rng.randint(1, 9)      # no non-default after default
             for a in ATTRS:
                 if rng.random() < 0.4:
-                    lv["attrs"].append([a, 1000 * (i + 1) + ATTRS.index(a)])
+                    # mostly a number telling level and name apart; sometimes a falsy / None value
+                    lv["attrs"].append([a, 1000 * (i + 1) + ATTRS.index(a) if rng.random() < 0.75
+                                        else rng.choice([900001, 900001, 900002, 900003, 0])])
             levels.append(lv)
         self.levels = levels
         for i in range(nlev):
@@ -725,6 +746,8 @@ class Gen:
         rng = self.rng
         wild = rng.random() < self.wild
         ref = rng.choice(["s", "s", "p", "p", "l", "n"])
+        if 0 < i < self.nlev - 1 and rng.random() < 0.25:
+            ref = "l"                     # `local` in an intermediate template (its own definition, else toward the base)
         if not wild:
             if ref == "n" and i == 0:
                 ref = "s"
@@ -1247,7 +1270,7 @@ def corr_build_attrs(ctx, impl, gen, n):
                     else:
                         res.append("b")
                 else:
-                    res.append("v%d" % getattr(nss[j].attr, x))
+                    res.append("v%d" % val_code(getattr(nss[j].attr, x)))
             except AttributeError:
                 res.append("x")
             ctx.branch("attrs:" + k + ":" + res[-1][0])
@@ -1329,6 +1352,17 @@ def report_check_violation(ctx, t):
 
 # fixed witnesses of the recorded findings (replayed on the implementation on every run) and of the rules
 WITNESSES = [
+    # rules, not findings: `local` in an intermediate template is that template (its own definition of ma wins over T0's)
+    {"levels": [{"inh": "S", "sig": [], "attrs": [], "nodes": [{"k": "d", "n": "ma", "kids": [{"k": "t", "v": 1}]}]},
+                {"inh": "S", "sig": [], "attrs": [], "nodes": [{"k": "d", "n": "ma", "kids": [{"k": "t", "v": 2}]},
+                                                               {"k": "c", "r": "l", "x": "ma", "pos": [], "kw": []}]},
+                {"inh": "N", "sig": [], "attrs": [], "nodes": [{"k": "c", "r": "n", "x": "body", "pos": [], "kw": []}]}],
+     "data": []},
+    # a module attribute whose value is None / falsy is still the most derived definition of that attribute
+    {"levels": [{"inh": "S", "sig": [], "attrs": [["ax", 900001], ["ay", 0], ["az", 900002]], "nodes": []},
+                {"inh": "N", "sig": [], "attrs": [["ax", 2000], ["ay", 2001], ["az", 2002]],
+                 "nodes": [{"k": "a", "r": "s", "x": "ax"}, {"k": "a", "r": "s", "x": "ay"}, {"k": "a", "r": "s", "x": "az"}]}],
+     "data": []},
     # a block named like a Namespace attribute never renders in a derived template
     {"levels": [{"inh": "S", "sig": [], "attrs": [], "nodes": [{"k": "b", "n": "name", "kids": [{"k": "t", "v": 1}]}]},
                 {"inh": "N", "sig": [], "attrs": [], "nodes": [{"k": "c", "r": "n", "x": "body", "pos": [], "kw": []}]}],
